@@ -27,6 +27,15 @@ func emptinessTest(b *ssa.BasicBlock, recv ssa.Value) (f *types.Var, full *ssa.B
 	if !isB {
 		return
 	}
+	// mirrored spellings (`0 == len(f)`, `nil != f`, `0 < len(f)`): constant on the left
+	if _, lc := bo.X.(*ssa.Const); lc {
+		if _, rc := bo.Y.(*ssa.Const); !rc {
+			flip := map[token.Token]token.Token{token.EQL: token.EQL, token.NEQ: token.NEQ, token.LSS: token.GTR, token.GTR: token.LSS, token.LEQ: token.GEQ, token.GEQ: token.LEQ}
+			if op, ok := flip[bo.Op]; ok {
+				bo = &ssa.BinOp{Op: op, X: bo.Y, Y: bo.X}
+			}
+		}
+	}
 	// f != nil / f == nil
 	if isNilConst(bo.Y) {
 		if fl, base, okf := fieldLoad(bo.X); okf && base == recv {
